@@ -363,6 +363,38 @@ def observe(real, ref, probe, world, step, label):
             'fresh_model.simulate', kind,
             '%s: theta %s times %s real %s fresh %s' % (
                 label, theta, times, short(a), short(b)), step)
+    if (not ref.reduced and ref.sens not in (None, 'all')
+            and isinstance(a, tuple) and len(a) == 2):
+        # an independent look at the LAYOUT of the sensitivities: the
+        # columns returned for a subset are the corresponding columns of the
+        # sensitivities with respect to all parameters, in parameters() order
+        full = ref.clone()
+        full.sens = 'all'
+        was = world.faults_enabled
+        world.faults_enabled = False
+        world.muted += 1
+        try:
+            fm = call(full.fresh)
+            c = call(fm.simulate, np.array(theta), np.array(times)) \
+                if not is_exc(fm) else fm
+        finally:
+            world.muted -= 1
+            world.faults_enabled = was
+        if not is_exc(c) and isinstance(c, tuple):
+            all_names = [str(n_) for n_ in fm.parameters()]
+            asked = set(ref.par_names.get(n_, n_) for n_ in ref.sens)
+            idx = [i_ for i_, n_ in enumerate(all_names) if n_ in asked]
+            want = np.asarray(c[1])[:, :, idx]
+            got = np.asarray(a[1])
+            if got.shape != want.shape or not close(
+                    got, want, rtol=1e-5, atol=1e-8, norm=True):
+                raise Violation(
+                    'sensitivities.layout', 'subset_differs_from_all',
+                    '%s: sensitivities for %s: %s; the columns %s of the '
+                    'sensitivities for all parameters %s: %s' % (
+                        label, sorted(asked), short(got, 300), idx,
+                        all_names, short(want, 300)), step)
+            world.probe('subset_sensitivity_layout_checked')
     if ref.cls == 'pkpd' and runs and not is_exc(a):
         rep = call(lambda: protocol_events(real.dosing_regimen()))
         for r in runs:
